@@ -325,6 +325,9 @@ pub struct World {
     pub n_dup: u32,
     pub n_loss: u32,
     pub n_junk: u32,
+    /// Scripted datagrams (C04/C14): when non-empty, `is_readable` hands these over in order
+    /// without consulting the explorer.
+    pub inject: std::collections::VecDeque<(Vec<u8>, Option<SocketAddr>)>,
 }
 
 thread_local! {
@@ -355,6 +358,7 @@ pub fn install(cfg: NetCfg, chooser: Chooser) {
             n_dup: 0,
             n_loss: 0,
             n_junk: 0,
+            inject: std::collections::VecDeque::new(),
         });
     });
 }
@@ -904,6 +908,10 @@ impl World {
 
     fn is_readable(&mut self, timeout: Duration) -> bool {
         self.op_count += 1;
+        if let Some(d) = self.inject.pop_front() {
+            self.ready = Some(d);
+            return true;
+        }
         let p = self.pending.len();
         let m = &self.cfg.menu;
         // enumerate alternatives
